@@ -252,13 +252,34 @@ def oracleSigC08Seq (rate : Nat) (txs : List (List Byte)) (spans : List (Nat × 
 
 /-- C05 on a sequence: the reported messages whose text is one of the transmitted payloads form an
     in-order subsequence of the transmissions (nothing twice, nothing out of order) -/
-def oracleSigC05Seq (rate : Nat) (txs : List (List Byte)) (evs : List SigEv) : Option String :=
+def oracleSigC05Seq (rate nSamples : Nat) (txs : List (List Byte)) (evs : List SigEv) : Option String :=
   let outs : List Out := evs.filterMap (fun e => match e with | .msg t m => some ⟨t, m⟩ | _ => none)
   let bursts : List SBurst := evs.filterMap (fun e => match e with
     | .link t 'B' b => some ⟨"b0", b, t, 0⟩
     | _ => none)
   -- window and hold converted from symbol ticks to input samples
-  oracleC05With (HIST * rate * 100 / Gen.BAUD_CENTIHZ) (HOLD * rate * 100 / Gen.BAUD_CENTIHZ) txs bursts outs
+  let histS := HIST * rate * 100 / Gen.BAUD_CENTIHZ
+  match oracleC05With histS (HOLD * rate * 100 / Gen.BAUD_CENTIHZ) txs bursts outs with
+  | some e => some e
+  | none =>
+    -- "the same message transmitted again after that window is reported again": a text reported at `u` and then
+    -- carried again by at least two bursts that all end later than `u + window + 0.5 s`, with no burst of any OTHER
+    -- text within 2 s of them (the single pending slot, F8) and the stream going on for 2 s after the last of them,
+    -- must be reported a second time
+    let lastT := max nSamples ((evs.map SigEv.time).foldl max 0)   -- the end of the audio, not of the events
+    outs.findSome? (fun o =>
+      match o.msg with
+      | .som text _ _ =>
+        let again := bursts.filter (fun b => b.t > o.t + histS + rate / 2 ∧ b.bytes.take text.length == text)
+        match again.head?, again.getLast? with
+        | some b1, some b2 =>
+          let others := bursts.any (fun b => b.bytes.take text.length != text ∧ b.t + 2 * rate > b1.t ∧ b.t < b2.t + 2 * rate)
+          let reportedAgain := outs.any (fun p => decide (p.t > o.t) && (match p.msg with | .som t2 _ _ => t2 == text | _ => false))
+          if again.length ≥ 2 ∧ !others ∧ b2.t + 2 * rate ≤ lastT ∧ !reportedAgain then
+            some s!"the message reported at sample {o.t} was carried again by {again.length} bursts after the suppression window (first at sample {b1.t}) but was not reported again"
+          else none
+        | _, _ => none
+      | _ => none)
 
 /-- C05 for a single transmission: at most one StartOfMessage and at most one EndOfMessage -/
 def oracleSigC05One (msgs : List Out) : Option String :=
@@ -271,12 +292,14 @@ def oracleSigC05One (msgs : List Out) : Option String :=
 /-- C09 on a full trace: every StartOfMessage (at sample p) is followed by an EndOfMessage — or a
     newer StartOfMessage, which re-arms the timer — no later than p + (135 + 6) s; and no burst is
     longer than the maximum frame's data (252 bytes). -/
-def oracleSigC09 (rate : Nat) (evs : List SigEv) : Option String :=
+def oracleSigC09 (rate nSamples : Nat) (evs : List SigEv) : Option String :=
   let msgs := evs.filterMap (fun e => match e with | .msg t m => some (t, m) | _ => none)
   let tooLong := evs.findSome? (fun e => match e with
     | .link t 'B' b => if b.length > Gen.MAX_BURST_LENGTH then some s!"burst of {b.length} bytes at sample {t} exceeds the maximum frame length" else none
     | _ => none)
-  let lastT := (evs.map SigEv.time).foldl max 0
+  -- the end of the audio: the number of input samples (a first version took the time of the LAST EVENT, so a
+  -- StartOfMessage after which nothing at all happened for 141 s was taken for "the audio ended": seed C09d)
+  let lastT := max nSamples ((evs.map SigEv.time).foldl max 0)
   -- diagnosis of the one known way this happens (F9): the link layer stayed in Searching without a break
   -- across the timeout (an honest prefix search lasts 21 bytes ≈ 0.32 s; 60 byte times are taken as "stuck")
   let stuck := (60 * 8 * rate * 100) / Gen.BAUD_CENTIHZ
